@@ -305,6 +305,10 @@ pub fn c07_cases(thorough: bool) -> Vec<BatchCase> {
         BatchCase { name: "same_proof_object_replayed_for_another_constant".into(), instances: vec![h(&one), Inst { shape: one.clone(), kind: "same_proof_other_constant".into() }] },
         BatchCase { name: "only_structurally_invalid_member".into(), instances: vec![Inst { shape: two.clone(), kind: "honest_identity_t1".into() }] },
         BatchCase { name: "opaque_then_honest_two_phase".into(), instances: vec![o(&twop), h(&one)] },
+        // batches none of whose members has a multiplication gate
+        BatchCase { name: "gate_free_members_only_opaque".into(), instances: vec![o(&zero)] },
+        BatchCase { name: "gate_free_members_only_honest_and_opaque".into(), instances: vec![h(&zero), o(&zero)] },
+        BatchCase { name: "gate_free_same_proof_replayed_for_another_constant".into(), instances: vec![h(&zero), Inst { shape: zero.clone(), kind: "same_proof_other_constant".into() }] },
     ];
     if thorough {
         v.push(BatchCase { name: "four_opaque".into(), instances: vec![o(&one), o(&one), o(&zero), o(&two)] });
